@@ -30,6 +30,9 @@ var commentEnd = []byte("-->")
 
 // tText is the context transition function for the text state.
 func tText(c context, s []byte) (context, int) {
+	if mixedSpecial(c.element) && bytes.IndexByte(s, '<') >= 0 {
+		return context{state: stateError, err: errMixedSpecial(c.element)}, len(s)
+	}
 	k := 0
 	for {
 		i := k + bytes.IndexByte(s[k:], '<')
@@ -140,6 +143,23 @@ func tTag(c context, s []byte) (context, int) {
 	}, j
 }
 
+// mixedSpecial reports whether conditional branches gave the element different
+// names at least one of which is a special element. A browser parses the content of
+// the element by other rules under one name than under the other, so only content
+// without markup has a known context.
+func mixedSpecial(e element) bool {
+	special, mixed := specialElements[e.name], false
+	for _, name := range e.names {
+		special = special || specialElements[name]
+		mixed = mixed || name != e.name
+	}
+	return special && mixed
+}
+
+func errMixedSpecial(e element) *Error {
+	return errorf(ErrBranchEnd, nil, 0, "markup in the content of an element that conditional branches named differently (%q), one of them a script, style, textarea or title element", e.names)
+}
+
 // tAttrName is the context transition function for stateAttrName.
 // allVoid reports whether the element is void under every name it may have: if
 // conditional branches chose the element name, the name that happens to be kept
@@ -217,6 +237,9 @@ var (
 // tSpecialTagEnd is the context transition function for raw text, RCDATA
 // script data, and stylesheet element states.
 func tSpecialTagEnd(c context, s []byte) (context, int) {
+	if mixedSpecial(c.element) && bytes.IndexByte(s, '<') >= 0 {
+		return context{state: stateError, err: errMixedSpecial(c.element)}, len(s)
+	}
 	if specialElements[c.element.name] {
 		if i := indexTagEnd(s, []byte(c.element.name)); i != -1 {
 			return context{}, i
